@@ -408,6 +408,10 @@ def _place_case(rng, bad=False, combo=None, aligned=False, entry=None):
          'flip0': entry == 'volume' and rng.random() < 0.4, 'MR': MR, 'MC': MC, 'M': M, 'tile': tile,
          'typ': rng.choice(['BINARY', 'LABELMAP']), 'omit': rng.random() < 0.6, 'tiled_full': rng.random() < 0.35,
          'file_rt': rng.random() < 0.3, 'api': rng.choice(['seg', 'seg', 'image']), 'npos': 1, 'pp': [1, 1]}
+    if c['api'] == 'image':
+        # the plain Image interface has no way to ask for a total pixel matrix with omitted tiles
+        # (Image.get_volume does not forward allow_missing_positions to get_total_pixel_matrix)
+        c['omit'] = False
     as_idx = rng.random() < 0.5
     c['as_idx'] = as_idx
     c.update({'ss': None, 'se': None, 'rs': None, 're': None, 'cs': None, 'ce': None})
@@ -848,7 +852,12 @@ def run_impl(c):
         return _run_place(c)
     if k.startswith('vol') or k.startswith('src'):
         info = {}
-        seg = _build_seg(c, info)
+        if k == 'vol_hist':
+            seg = catch(lambda: _build_seg(c, info))
+            if isinstance(seg, Err):      # the history made construction / encoding of a valid volume fail
+                return [seg, seg, seg, None]
+        else:
+            seg = _build_seg(c, info)
         if c['api'] == 'image':
             img = hd.Image.from_dataset(seg, copy=True)
             geo = catch(lambda: _geom_out(img.get_volume_geometry(allow_missing_positions=c['allow_missing'])))
@@ -1214,6 +1223,9 @@ def oracle(c, out):
         if k == 'vol_hist':
             if not isinstance(out, list) or len(out) != 4:
                 return f'unexpected output {out}'
+            if isinstance(out[1], Err) and out[3] is None:
+                return (f'a valid volume could not be built / encoded after the caller re-used its buffers '
+                        f'({c["hist"]}): {out[1]}')
             if out[3] is not True:
                 return 'encoding the segmentation modified the caller\'s affine buffer / pixel array'
             out = out[:3]
